@@ -144,8 +144,9 @@ class TaskAbort(BaseException):
     pass
 
 
-# generous: the slowest legitimate quick task takes ~40 s, thorough tasks are split to < 20 min
-TASK_TIMEOUT = {"quick": 150.0, "thorough": 3600.0}
+# generous on purpose (the watchdog is for code that does not terminate, not for slow machines):
+# the slowest legitimate quick task takes ~60 s on an idle core, thorough tasks < 20 min
+TASK_TIMEOUT = {"quick": 300.0, "thorough": 3600.0}
 REARM = 6.0
 MAX_TIMEOUTS = 5
 
@@ -190,8 +191,14 @@ def _worker(job):
         f = getattr(mod, "task_" + fname)
         t0 = time.time()
         signal.signal(signal.SIGALRM, _on_alarm)
+        # scaled by the machine's load: the watchdog is for code that does not terminate, a busy
+        # machine must not look like that
+        try:
+            scale = max(1.0, 2.0 * os.getloadavg()[0] / (os.cpu_count() or 1))
+        except OSError:
+            scale = 1.0
         signal.setitimer(signal.ITIMER_REAL, float(os.environ.get("VERIF_TASK_TIMEOUT", 0))
-                         or TASK_TIMEOUT.get(env.get("tier"), 240.0))
+                         or TASK_TIMEOUT.get(env.get("tier"), 300.0) * scale)
         try:
             r = f(args, env)
         finally:
@@ -356,7 +363,8 @@ def replay_file(path):
         raise CaseTimeout()
 
     signal.signal(signal.SIGALRM, on_alarm)
-    signal.setitimer(signal.ITIMER_REAL, float(os.environ.get("VERIF_REPLAY_TIMEOUT", 90)))
+    default_to = 3600 if case.get("fn") == "mc.core:replay_task" else 300
+    signal.setitimer(signal.ITIMER_REAL, float(os.environ.get("VERIF_REPLAY_TIMEOUT", default_to)))
     try:
         out = run_replay_fn(case["fn"], case["args"])
     finally:
